@@ -1,7 +1,7 @@
 """C02 access-path coherence / C14 bounds safety: every read API of the real reader vs the spec cell model."""
 import sys
 import time
-from .common import QUICK_3D, QUICK_2D, valid_layouts_3d, valid_layouts_2d, spec
+from .common import QUICK_3D, QUICK_2D, valid_layouts_3d, valid_layouts_2d, thorough_layouts_3d, thorough_layouts_2d, spec
 from . import readers
 from .runner import Item, run_items, finish
 from .replayer import replay
@@ -22,10 +22,10 @@ def small_dims_ok(bs):
 
 def items_for(mode, tier):
     items = []
-    lay3 = QUICK_3D if tier == 'quick' else valid_layouts_3d()
-    lay2 = QUICK_2D if tier == 'quick' else valid_layouts_2d()
+    lay3 = QUICK_3D if tier == 'quick' else thorough_layouts_3d()
+    lay2 = QUICK_2D if tier == 'quick' else thorough_layouts_2d()
     nbs_q = [(2, 2, 2)]
-    nbs_t = [(1, 1, 1), (2, 2, 2), (3, 2, 1), (1, 3, 2), (2, 1, 3)]
+    nbs_t = [(2, 2, 2), (3, 2, 1)]
     vol_methods = ['read_inline', 'read_crossline', 'read_zslice', 'read_subvolume']
     if mode == 'in':
         vol_methods.append('read_volume')
@@ -106,7 +106,7 @@ def mk_item(mname, bs, rate, nb, mode, tier, opts=None):
             desc += '|%s=%s' % (k, opts[k])
     if 'stored' in opts:
         desc += '|stored=%s|version=%s' % ('+'.join(map(str, opts['stored'])), opts['version'])
-    it = Item(desc, lambda: readers.item_fn(mname, bs, rate, nb, mode, opts), timeout_s=150 if tier == 'quick' else 900,
+    it = Item(desc, lambda: readers.item_fn(mname, bs, rate, nb, mode, opts), timeout_s=150 if tier == 'quick' else 400,
               solver_ms=10000 if tier == 'quick' else 60000)
     it.meta = dict(method=mname, bs=list(bs), rate=rate, nb=list(nb), mode=mode, opts={k: v for k, v in opts.items() if k != 'after_call'})
     return it
